@@ -55,6 +55,9 @@ pub struct SinkState {
     pub flush_fault: Option<(u64, u64)>,
     /// (offset, length) of every write call that was accepted in full, in order
     pub calls: Vec<(usize, usize)>,
+    /// write-behind sink (BufWriter-like): accepted bytes are staged and reach `data` only at `flush`
+    pub write_behind: bool,
+    pub staged: Vec<u8>,
 }
 
 /// A sink answering every `write` from a schedule; an exhausted schedule accepts everything.
@@ -76,6 +79,10 @@ impl Write for Sink {
         }
         match st.sched.pop_front() {
             None => {
+                if st.write_behind {
+                    st.staged.extend_from_slice(buf);
+                    return Ok(buf.len());
+                }
                 let at = st.data.len();
                 st.calls.push((at, buf.len()));
                 st.data.extend_from_slice(buf);
@@ -103,6 +110,8 @@ impl Write for Sink {
                 return Err(tagged_error(tag));
             }
         }
+        let staged = std::mem::take(&mut st.staged);
+        st.data.extend_from_slice(&staged);
         Ok(())
     }
 }
@@ -123,6 +132,8 @@ pub enum SrcFault {
     Seek(u64, u64),
     /// the first read after the n-th seek fails
     ReadAfterSeek(u64, u64),
+    /// the n-th seek fails with `ErrorKind::Interrupted` (a seek is not retried by std: the failure must surface)
+    SeekIntr(u64, u64),
 }
 
 /// A seekable in-memory source with counters, optional short/interrupted reads and faults.
@@ -218,6 +229,11 @@ impl Seek for Src {
             if let Some(SrcFault::Seek(n, tag)) = &*self.fault.borrow() {
                 if st.seeks == *n {
                     return Err(tagged_error(*tag));
+                }
+            }
+            if let Some(SrcFault::SeekIntr(n, tag)) = &*self.fault.borrow() {
+                if st.seeks == *n {
+                    return Err(io::Error::new(io::ErrorKind::Interrupted, format!("verif-fault-{}", tag)));
                 }
             }
         }
